@@ -39,7 +39,7 @@ ANCHORS = [
     ("deepali.core.pointset", "normalize_grid"),
     ("deepali.core.pointset", "denormalize_grid"),
 ]
-N_CASES = {"quick": 80, "thorough": 4000}
+N_CASES = {"quick": 80, "thorough": 8000}
 BUDGET = {"quick": 400, "thorough": 3600}
 
 
